@@ -39,8 +39,15 @@ structure Rec where
 
 def ofStr (s : String) : B := s.toUTF8.toList
 
-/-- `strconv.Itoa` -/
-def dec (i : Int) : B := ofStr (toString i)
+/-- decimal digits of a natural number, most significant first, no leading zero (`0` for zero) -/
+def natDigits (n : Nat) : B :=
+  if h : n < 10 then [48 + UInt8.ofNat n] else natDigits (n / 10) ++ [48 + UInt8.ofNat (n % 10)]
+termination_by n
+decreasing_by omega
+
+/-- `strconv.Itoa`: an optional `-` and the decimal digits (transcribed digit by digit so that the shape of the
+literal — what the JSON grammar asks of a number — is provable; equal to `toString i` on every case of the harness) -/
+def dec (i : Int) : B := if i < 0 then 45 :: natDigits i.natAbs else natDigits i.natAbs
 
 /-! ## byte-wise order of keys (Go string `<`) and sorting (goccy / `fmt` print maps by sorted key) -/
 
@@ -298,5 +305,24 @@ def writeFile (c : Cfg) (arr : List (Nat × List Rec)) : Option B := do
   pure (match c.kind with
     | .json => Writer.writeJson chunks
     | _ => Writer.writeRaw chunks)
+
+end ObiVerif.WriterFmt
+
+/-! ## paired output: the two files of `Write…ToFile(…, WritePairedReadsTo(f2))` -/
+
+namespace ObiVerif.WriterFmt
+
+/-- one batch of a paired stream: every record with its mate (`BioSequence.PairedWith()`) -/
+abbrev PBatch := List (Rec × Rec)
+
+/-- `WriteFastaToFile` / `WriteFastqToFile` / `WriteJSONToFile` / `WriteCSVToFile` on a paired stream: a first writer on
+the records (arrival history `arr1` at its writer goroutine), then a second writer — same options — on
+`iterator.PairedWith()`: the batches `(order, mates)` (`BioSequenceBatch.PairedWith` keeps the batch number), which
+reach the second writer goroutine in their own order `arr2` (the formatting workers of the first writer hand the
+batches on as they finish).  `none`: a formatter died. -/
+def writePaired (c : Cfg) (arr1 arr2 : List (Nat × PBatch)) : Option (B × B) := do
+  let f1 ← writeFile c (arr1.map fun a => (a.1, a.2.map Prod.fst))
+  let f2 ← writeFile c (arr2.map fun a => (a.1, a.2.map Prod.snd))
+  pure (f1, f2)
 
 end ObiVerif.WriterFmt
